@@ -15,7 +15,7 @@ package fiber
 // refJoin(refJoin(p1, p2), path) directly on the application. refJoin is the documented meaning of a prefix
 // (prefix without its trailing slashes, followed by the path with a leading slash; an empty path is the prefix).
 //
-// Bound, FVC_TIER=quick (about 35 s):
+// Bound, FVC_TIER=quick (about 25 s, 24812 trees, 6.9M cases):
 //   routes R = {Get("/"), Get("/x"), Get("/:id"), Use("/x", mw), Use(mw)}, prefixes P = {"/", "/a", "/a/", "/:p"}
 //   A depth 1: root = [<=1 route of R] ++ mount(p in P, sub) ++ [<=1 route of R], sub = any list of <= 2 routes of R,
 //              mounted by app.Use(p, sub); with <= 1 sibling also by app.Group("/").Use(p, sub), app.Group(p).Use(sub)
@@ -33,7 +33,7 @@ package fiber
 //             (trees that fall under a known finding, where every disagreement is attributed to it: <= 2 segments)
 //   part 2:   prefixes {"", "/", "/a", "/a/", "a", "/:p"} x {none, same six} x R x sibling {none, Get("/x") before and
 //             Use("/x", mw) after, Use(mw) before and Get("/") after}, through Group and through Route
-// Bound, FVC_TIER=thorough (about 5 min): A with sub lists of <= 3 routes; C additionally with the root siblings
+// Bound, FVC_TIER=thorough (about 3.5 min, 187680 trees, 45M cases): A with sub lists of <= 3 routes; C additionally with the root siblings
 //   Use(mw) alone / Get("/x") alone, and with sub of 2 routes around mount(p2, leaf of <= 1 route) without or with
 //   both root siblings; D with s of <= 1 route of R; everything also with Config{StrictRouting: true, CaseSensitive: true}.
 //
@@ -50,6 +50,10 @@ package fiber
 //                  nil group of a cloned mount marker (for "/" in "/" depending on map iteration order).
 //                  Predicate: below one application two mounted applications have the same joined prefix and one of
 //                  the two has a mount itself.
+//   star-trailing-slash  a route "/*" of a sub-application mounted at "/" keeps the path "/*" but the splice clears
+//                  Route.star: the wildcard is matched by the parser on the detection path (trailing slash removed)
+//                  instead of the shortcut on the request path: GET /a/ delivers Params("*") == "a", the twin "a/".
+//                  Predicate: a mounted application whose joined mount prefix is "/" has a route Get("/*") or Use("/*").
 //   strict-bare-use  Config.StrictRouting: middleware registered in the sub-application without a path (sub.Use(mw),
 //                  registered path "/") is spliced as prefix + "/" and no longer covers the mount prefix itself
 //                  ("/a"), while Group("/a").Use(mw) registers "/a". Predicate: StrictRouting and a mounted application
@@ -221,6 +225,33 @@ func (t *fvcC04Tree) strictBareUse(base string, mounted bool) bool {
 			key = fvcC04Norm(fvcC04RefJoin(base, key))
 		}
 		if it.sub.strictBareUse(key, true) {
+			return true
+		}
+	}
+	return false
+}
+
+// a wildcard route "/*" in a mounted application whose joined mount prefix is "/"
+func (t *fvcC04Tree) rootWildcard(base string, mounted bool) bool {
+	for _, it := range t.items {
+		if (it.kind == 5 || it.kind == 6) && mounted && base == "/" {
+			return true
+		}
+		if it.kind >= 0 {
+			continue
+		}
+		rel := it.prefix
+		switch it.style {
+		case 1:
+			rel = fvcC04RefJoin("/", it.prefix)
+		case 3:
+			rel = fvcC04RefJoin("/a", it.prefix)
+		}
+		key := fvcC04Norm(rel)
+		if base != "" {
+			key = fvcC04Norm(fvcC04RefJoin(base, key))
+		}
+		if it.sub.rootWildcard(key, true) {
 			return true
 		}
 	}
@@ -455,6 +486,8 @@ func (s *fvcC04Stats) checkTree(t *testing.T, tree *fvcC04Tree, cfg Config, cfgN
 		known = "key-collision"
 	case cfg.StrictRouting && tree.strictBareUse("", false):
 		known = "strict-bare-use"
+	case tree.rootWildcard("", false):
+		known = "star-trailing-slash"
 	}
 	s.trees++
 	twin := New(cfg)
